@@ -136,7 +136,7 @@ def run(ctx):
 
     # ---- R10.3
     # literals the printer copies / formats per tag
-    def lits(stmts):
+    def lits(stmts, depth=0):
         out = []
         for s_ in stmts:
             for k in A.calls_in(s_):
@@ -145,6 +145,11 @@ def run(ctx):
                         v = A.string_literal(a)
                         if v is not None:
                             out.append(v)
+                elif depth < 2:
+                    # a file-local helper the case hands its printing to
+                    for g_ in u.functions.get(A.callee_name(k) or "", []):
+                        if u.body(g_) is not None and g_.get("storageClass") == "static":
+                            out += lits(A.kids(u.body(g_)), depth + 1)
         return out
     chk = u.function("rtosc_skip_next_printed_arg")
     kc = C11.keyword_table_checker(u, chk, R.top_switch(u, chk))
